@@ -878,6 +878,15 @@ class TextXVisitor(RRELVisitor):
                 elif repeat_op == "+":
                     rule = OneOrMore(nodes=[expr])
                 else:
+                    if isinstance(expr, RuleCrossRef):
+                        line, col = self.grammar_parser.pos_to_linecol(node.position)
+                        raise TextXSyntaxError(
+                            'Unordered group operator "#" can not be applied '
+                            f"to a rule reference at {(line, col)}. "
+                            "Use it on a parenthesized group.",
+                            line,
+                            col,
+                        )
                     rule = UnorderedGroup(nodes=expr.nodes)
 
                 if modifiers:
